@@ -303,6 +303,33 @@ type c23h struct {
 	src  c23src
 	buf  []byte
 	data []byte
+	req  Request
+	hdr  Header
+	te   []string
+	// current case (for lazily built case ids) and local outcome counters
+	cur  struct {
+		part, desc string
+		fr         c23frag
+		e, pi      int
+		extra      int
+	}
+	idFn func() string
+	oc   map[[3]string]int64
+}
+
+func (h *c23h) id() string {
+	if h.cur.part == "A-bare" {
+		return vk.Key(h.cur.part, h.cur.desc, h.cur.extra, h.cur.fr, h.cur.pi)
+	}
+	return vk.Key(h.cur.part, h.cur.desc, h.cur.fr, h.cur.e, h.cur.pi)
+}
+
+func (h *c23h) outcome(a, b, c string) { h.oc[[3]string{a, b, c}]++ }
+
+func (h *c23h) flush() {
+	for k, n := range h.oc {
+		h.r.OutcomeN(k[0]+k[1]+"/bfe-"+k[2], n)
+	}
 }
 
 // run decodes stream s with the real decoder. bare=false: the body built by readTransfer
@@ -316,7 +343,10 @@ func (h *c23h) run(s []byte, fr c23frag, eofWith bool, pat []int, bare bool) (ou
 		if bare {
 			rd = newChunkedReader(h.br)
 		} else {
-			req := &Request{Method: "POST", ProtoMajor: 1, ProtoMinor: 1, Header: Header{"Transfer-Encoding": {"chunked"}}}
+			// a fresh message head "Transfer-Encoding: chunked" (objects reused between cases)
+			h.hdr["Transfer-Encoding"] = h.te
+			h.req = Request{Method: "POST", ProtoMajor: 1, ProtoMinor: 1, Header: h.hdr}
+			req := &h.req
 			if err := readTransfer(req, h.br); err != nil {
 				panic("harness: readTransfer: " + err.Error())
 			}
@@ -358,6 +388,13 @@ func (h *c23h) run(s []byte, fr c23frag, eofWith bool, pat []int, bare bool) (ou
 	return
 }
 
+var c23errKinds = [][2]string{
+	{"invalid byte in chunk length", "err:invalid-byte-in-chunk-length"},
+	{"malformed chunked encoding", "err:malformed-chunked-encoding"},
+	{"suspiciously long trailer", "err:suspiciously-long-trailer"},
+	{"malformed MIME header", "err:malformed-MIME-header"},
+}
+
 func c23errKind(out *c23out) string {
 	switch {
 	case out.panic != "":
@@ -374,9 +411,9 @@ func c23errKind(out *c23out) string {
 		return "err:line-too-long"
 	}
 	m := out.err.Error()
-	for _, k := range []string{"invalid byte in chunk length", "malformed chunked encoding", "suspiciously long trailer", "malformed MIME header"} {
-		if strings.Contains(m, k) {
-			return "err:" + strings.Replace(k, " ", "-", -1)
+	for _, k := range c23errKinds {
+		if strings.Contains(m, k[0]) {
+			return k[1]
 		}
 	}
 	return "err:other"
@@ -391,7 +428,8 @@ func c23short(b []byte) string {
 
 // judge compares one execution with the reference. mustAccept: the stream was produced by
 // the real encoder from body `want` (ref.data) and ends at ref.end.
-func (h *c23h) judge(part string, s []byte, ref *c23ref, out *c23out, mustAccept bool, id func() string) {
+func (h *c23h) judge(s []byte, ref *c23ref, out *c23out, mustAccept bool) {
+	id := h.idFn
 	kind := c23errKind(out)
 	if out.panic != "" {
 		// the statement does not say "never panics": reported as an outcome, and (being no
@@ -401,7 +439,7 @@ func (h *c23h) judge(part string, s []byte, ref *c23ref, out *c23out, mustAccept
 	clean := kind == "clean"
 	switch {
 	case ref.clause == "unjudged":
-		h.r.Outcome("unjudged:" + ref.class + "/bfe-" + kind)
+		h.outcome("unjudged:", ref.class, kind)
 	case ref.ok && clean:
 		if !bytes.Equal(out.data, ref.data) {
 			sig := "decode:data-differs"
@@ -416,12 +454,12 @@ func (h *c23h) judge(part string, s []byte, ref *c23ref, out *c23out, mustAccept
 			}
 			h.r.Violation(sig, id(), fmt.Sprintf("stream %s: bfe body ended after %d bytes, expected %d", c23short(s), out.end, ref.end))
 		}
-		h.r.Outcome("ref-accept/bfe-accept")
+		h.outcome("ref-accept", "", "accept")
 	case ref.ok && !clean:
 		if mustAccept {
 			h.r.Violation("roundtrip:"+kind, id(), fmt.Sprintf("encoder output %s (body %s) not decoded: %v %s; got %s", c23short(s), c23short(ref.data), out.err, c23trim(out.panic), c23short(out.data)))
 		}
-		h.r.Outcome("ref-accept/bfe-" + kind)
+		h.outcome("ref-accept", "", kind)
 	case !ref.ok && clean:
 		what := "accepted"
 		if ref.clause == "size-line" {
@@ -433,9 +471,9 @@ func (h *c23h) judge(part string, s []byte, ref *c23ref, out *c23out, mustAccept
 			}
 		}
 		h.r.Violation(ref.clause+":"+ref.class+":"+what, id(), fmt.Sprintf("stream %s deviates from the chunked grammar (%s: %s) but bfe returned body %s with clean EOF, ending after %d bytes", c23short(s), ref.clause, ref.class, c23short(out.data), out.end))
-		h.r.Outcome("ref-reject/bfe-accept")
+		h.outcome("ref-reject", "", "accept")
 	default:
-		h.r.Outcome("ref-reject:" + ref.clause + "/bfe-" + kind)
+		h.outcome("ref-reject:", ref.clause, kind)
 	}
 }
 
@@ -448,16 +486,16 @@ func c23trim(s string) string {
 
 // explore runs stream s under every fragmentation / EOF flavour / consumer pattern given.
 func (h *c23h) explore(part, desc string, s []byte, ref *c23ref, mustAccept bool, frs []c23frag, pats [][]int) {
+	h.cur.part, h.cur.desc = part, desc
 	for _, fr := range frs {
 		for e := 0; e < 2; e++ {
 			for pi, pat := range pats {
-				fr, e, pi, pat := fr, e, pi, pat
-				id := func() string { return vk.Key(part, desc, fr, e, pi) }
-				if !h.r.CaseN(id) {
+				h.cur.fr, h.cur.e, h.cur.pi = fr, e, pi
+				if !h.r.CaseN(h.idFn) {
 					continue
 				}
 				out := h.run(s, fr, e == 1, pat, false)
-				h.judge(part, s, ref, &out, mustAccept, id)
+				h.judge(s, ref, &out, mustAccept)
 			}
 		}
 	}
@@ -559,15 +597,20 @@ func c23fill(n int) []byte {
 func TestVerifC23(t *testing.T) {
 	r := vk.Start(t, "C23")
 	defer r.Finish()
-	h := &c23h{r: r, br: bfe_bufio.NewReader(nil), buf: make([]byte, 16384)}
+	h := &c23h{r: r, br: bfe_bufio.NewReader(nil), buf: make([]byte, 16384), hdr: Header{}, te: []string{"chunked"}, oc: map[[3]string]int64{}}
+	h.idFn = h.id
+	defer h.flush()
 	idx := 0
+	// top-level work items are dealt to shards by a mixed index (plain idx%shards correlates
+	// with the shape of the enumeration tree)
+	mine := func(i int) bool { return r.Mine(int(uint32(i) * 2654435761 >> 12)) }
 	maxAll := r.Pick(11, 14)
 	patsFull := [][]int{{1}, {2}, {3}, {64}, {1, 3}, {2, 1, 64}}
 	if r.Thorough() {
 		patsFull = nil
 		for _, a := range []int{1, 2, 3, 64} {
 			patsFull = append(patsFull, []int{a})
-			for _, b := range []int{1, 2, 3, 64} {
+			for _, b := range []int{1, 3} {
 				if a != b {
 					patsFull = append(patsFull, []int{a, b})
 				}
@@ -582,7 +625,7 @@ func TestVerifC23(t *testing.T) {
 	maxBody := r.Pick(4, 6)
 	c23strings(alphaA, maxBody, func(parts []int) {
 		idx++
-		if !r.Mine(idx) || r.Expired("A") {
+		if !mine(idx) || r.Expired("A") {
 			return
 		}
 		body := c23join(alphaA, parts)
@@ -604,7 +647,7 @@ func TestVerifC23(t *testing.T) {
 			}
 			want := c23ref{ok: true, data: body, end: len(enc)}
 			level := 1
-			if r.Thorough() && len(body) <= 5 {
+			if r.Thorough() && len(body) <= 4 {
 				level = 2
 			}
 			h.explore("A", desc, s, &want, true, c23frags(len(s), level, maxAll), patsFull)
@@ -617,15 +660,15 @@ func TestVerifC23(t *testing.T) {
 				encB := c23encodeBare(pieces, zeroAt)
 				sB := append(append([]byte{}, encB...), next...)
 				wantB := c23ref{ok: true, data: body, end: len(encB)}
+				h.cur.part, h.cur.desc, h.cur.extra = "A-bare", desc, zeroAt
 				for _, fr := range c23frags(len(sB), 0, 0) {
 					for pi, pat := range patsLight {
-						fr, pi := fr, pi
-						id := func() string { return vk.Key("A-bare", desc, zeroAt, fr, pi) }
-						if !r.CaseN(id) {
+						h.cur.fr, h.cur.pi = fr, pi
+						if !r.CaseN(h.idFn) {
 							continue
 						}
 						out := h.run(sB, fr, false, pat, true)
-						h.judge("A-bare", sB, &wantB, &out, true, id)
+						h.judge(sB, &wantB, &out, true)
 					}
 				}
 			}
@@ -639,7 +682,7 @@ func TestVerifC23(t *testing.T) {
 		}
 		for ci, cut := range [][]int{{}, {1}, {n - 1}, {n / 2}, {16, 4096 + 16}, {1000, 2000, 3000, 4000, 5000, 6000, 7000, 8000}} {
 			idx++
-			if !r.Mine(idx) {
+			if !mine(idx) {
 				continue
 			}
 			var pieces [][]byte
@@ -673,7 +716,7 @@ func TestVerifC23(t *testing.T) {
 	maxPre := r.Pick(4, 6)
 	c23strings(alphaB, maxPre, func(parts []int) {
 		idx++
-		if !r.Mine(idx) || r.Expired("B") {
+		if !mine(idx) || r.Expired("B") {
 			return
 		}
 		pre := c23join(alphaB, parts)
@@ -741,7 +784,7 @@ func TestVerifC23(t *testing.T) {
 	}
 	for _, c := range cs {
 		idx++
-		if !r.Mine(idx) {
+		if !mine(idx) {
 			continue
 		}
 		ref := c23RefDecode(c.s)
@@ -801,7 +844,7 @@ func TestVerifC23(t *testing.T) {
 		ops := opsFor(len(bs))
 		for i1, o1 := range ops {
 			idx++
-			if !r.Mine(idx) || r.Expired("D") {
+			if !mine(idx) || r.Expired("D") {
 				continue
 			}
 			s1, ok := apply([]byte(bs), o1)
@@ -847,7 +890,7 @@ func TestVerifC23(t *testing.T) {
 	for hi, head := range []string{"0\r\n", "2\r\nab\r\n0\r\n"} {
 		c23strings(alphaT, maxTail, func(parts []int) {
 			idx++
-			if !r.Mine(idx) {
+			if !mine(idx) {
 				return
 			}
 			tl := c23join(alphaT, parts)
@@ -862,5 +905,5 @@ func TestVerifC23(t *testing.T) {
 	}
 
 	r.Set("bounds", fmt.Sprintf("A: bodies over {a,CR,LF,0} len<=%d x all chunkings x (all fragmentations for streams<=%d bytes, else all 1-cut%s + 1/2/3-byte) x EOF-with-data{no,yes} x %d read patterns; +10 large bodies (15..8200) x 6 chunkings; bare writer/reader with a zero-length Write at every position. B: all prefixes over %d symbols len<=%d x data lengths. C: hex runs 15..33, lines 4094..5000, all 256 byte values ins/sub in a size line. D: all single%s deviations (truncate/delete/insert/substitute) of %d valid bodies. T: all tails over 6 atoms len<=%d",
-		maxBody, maxAll, map[bool]string{false: "", true: "/2-cut (len<=5)"}[r.Thorough()], len(patsFull), len(alphaB), maxPre, map[bool]string{false: "", true: " and double"}[r.Thorough()], len(bases), maxTail))
+		maxBody, maxAll, map[bool]string{false: "", true: "/2-cut (len<=4)"}[r.Thorough()], len(patsFull), len(alphaB), maxPre, map[bool]string{false: "", true: " and double"}[r.Thorough()], len(bases), maxTail))
 }
